@@ -296,7 +296,11 @@ def check_history(i, j):
 def selected_indices(tier, seed):
     total = n_configs()
     if tier == "thorough":
-        return list(range(total))
+        if os.environ.get("VERIF_C05_FULL") == "1":
+            return list(range(total))
+        # every second configuration of the full product (offset chosen by the seed) plus the
+        # quick tier's core; VERIF_C05_FULL=1 runs all 8448 (about 1.5 h on 16 idle cores)
+        return sorted(set(range(seed % 2, total, 2)) | set(range(0, total, 176)))
     core = list(range(0, total, 176))
     k = 141
     stratum = [i for i in range(seed % k, total, k)]
@@ -342,8 +346,8 @@ def run(ctx):
         "evaluations": total.n["test_cases"],
         "distinct_nontrivial": total.ndistinct("ok_configs"),
         "rule": "for each selected configuration every generator of DECODER_TEST_CASE_GENERATOR_REGISTRY is run to exhaustion; each test case is serialised, validated, decoded and judged by its family's oracle; non-trivial = distinct configurations all of whose test cases passed",
-        "exhaustive": ctx.tier == "thorough",
-        "bounds": {"full_product": n_configs(), "configurations_run": len(idx), "selection": "full product" if ctx.tier == "thorough" else "core (every 176th) + stratum (index = seed mod 141, step 141)", "domains": {k: len(v) for k, v in DOMAINS}, "extra_boundary_configurations": len(EXTRAS), "two_configuration_histories": "%d ordered pairs of %d configurations that differ only in video parameters outside the picture / coding geometry, all test cases generated for the first and then the second in one process" % (len(history_pairs()), len(HISTORY_CONFIGS))},
+        "exhaustive": ctx.tier == "thorough" and os.environ.get("VERIF_C05_FULL") == "1",
+        "bounds": {"full_product": n_configs(), "configurations_run": len(idx), "selection": ("full product" if os.environ.get("VERIF_C05_FULL") == "1" else "every second configuration of the product (offset = seed mod 2) + the quick core; VERIF_C05_FULL=1 runs the full product") if ctx.tier == "thorough" else "core (every 176th) + stratum (index = seed mod 141, step 141)", "domains": {k: len(v) for k, v in DOMAINS}, "extra_boundary_configurations": len(EXTRAS), "two_configuration_histories": "%d ordered pairs of %d configurations that differ only in video parameters outside the picture / coding geometry, all test cases generated for the first and then the second in one process" % (len(history_pairs()), len(HISTORY_CONFIGS))},
     }
     return total, cov
 
